@@ -33,18 +33,18 @@ PROPS = ["C01", "C03", "C04", "C05", "C06", "C08", "C12", "C13", "C14", "C15", "
 TIERS = {
     # a batch ends at whichever comes first: the run count or the wall cap (seconds)
     "quick": {
-        "default": (30000, 40),
-        "C01": (8000, 45),
-        "C05": (6000, 50),
-        "C06": (16000, 60),
-        "C08": (6000, 75),
-        "C12": (8000, 50),
-        "C13": (12000, 45),
-        "C14": (8000, 60),
+        "default": (45000, 40),
+        "C01": (10000, 45),
+        "C05": (13000, 50),
+        "C06": (40000, 60),
+        "C08": (8000, 75),
+        "C12": (10000, 50),
+        "C13": (15000, 45),
+        "C14": (11000, 60),
         "C15": (1200, 80),
         "C16": (8000, 50),
         "C19": (2400, 80),
-        "C20": (20000, 60),
+        "C20": (34000, 60),
     },
     "thorough": {"default": (400000, 1200), "C15": (25000, 1500), "C19": (30000, 1200)},
 }
